@@ -39,6 +39,10 @@ func init() {
 			{ID: "C10.16", Desc: "a nil header map of the upstream response is replaced before the cache writes fields into it", Run: func(c *Ctx) { ruleUpstreamHeaderRepaired(c, "C10.16") }, MinSites: 1},
 			{ID: "C10.17", Desc: "a stale-if-error window too large to represent saturates (else the origin's error is returned although a stale response may be used)", Run: func(c *Ctx) { ruleSaturation(c, "C10.17") }, MinSites: 2},
 			{ID: "C10.18", Desc: "collaborators are assigned before they are handed to other collaborators' constructors", Run: func(c *Ctx) { ruleCtorFieldsAssignedBeforeUse(c, "C10.18") }, MinSites: 1},
+			{ID: "C10.19", Desc: "after a failed serialisation the client still gets the body that was read", Run: func(c *Ctx) { ruleBodyHandedBackLast(c, "C10.19") }, MinSites: 1},
+			{ID: "C10.20", Desc: "every source of stale-if-error is consulted before the origin's failure is returned", Run: func(c *Ctx) { ruleC13_4(c); renameRule(c, "C13.4", "C10.20") }, MinSites: 1},
+			{ID: "C10.21", Desc: "the origin's error response is closed when the stored one is served instead (no connection is left checked out)", Run: func(c *Ctx) { ruleSIEClosesOriginBody(c, "C10.21") }, MinSites: 1},
+			{ID: "C10.22", Desc: "an entry whose recorded times cannot be read is unreadable", Run: func(c *Ctx) { ruleMetaTimesChecked(c, "C10.22") }, MinSites: 1},
 		},
 	})
 }
